@@ -42,3 +42,10 @@ prop("C17", ["contracts.c10_network", "contracts.c11_nmt", "contracts.c17_period
               "(or at modify_data) with its period until stop(); `live` = started - stopped is ghost state derived from the event trace",
               "Network.disconnect is proved for 2 nodes x 2 maps in all 16 running/idle configurations (enumerated, not for arbitrary counts)"],
      not_decided=["real-time behaviour of the transmitting thread"])
+
+prop("C19", ["contracts.c19_p402"],
+     ["StateDecode", "NextState", "NextStateRefused", "ChangeState", "SetState", "SetStateAuto", "OpModeSet"],
+     assumed=["conformant CiA 402 drive (env/drive402.py): reacts to a controlword with the transition CiA 402 defines for its "
+              "current state, reports any statusword matching its state's bit pattern, displays the mode it was given",
+              "controlword/statusword carried by SDO objects (the PDO transport reads a cached value and is not modelled)"],
+     not_decided=["time-outs in real time; controlword/statusword carried by PDO (cached TPDO value, wait_for_reception)"])
